@@ -570,7 +570,7 @@ def rule_joincond(facts):
     r = RuleResult("C02-JOINCOND", "a join node re-built with the join type of an existing node keeps that node's condition, unless the join type was tested to be "
                    "Inner", floor=1)
     nsites = 0
-    for rec in facts.all_fns(["glaredb_core"]):
+    for rec in facts.all_fns(["glaredb_core"], contains=JOIN_NODES):
         if "::optimizer::" not in rec["id"] or "::tests::" in rec["id"]:
             continue
         if not any(j in str(rec["bbs"]) for j in JOIN_NODES):
